@@ -34,7 +34,15 @@ cache field / a restructured `gc`: proof lost, stand-in silent); **C31** — fir
 them through a machinery error (the havoc fallback assumed a marker line the C31 template does not have — fixed). The
 witness finders were then extended (extension order and canonicity after `product_with_optional`, terminal handles kept
 alive across `gc`; a sibling directory differing only in letter case, two cooperating links with `..`, re-validation
-after an accepted file was replaced by a link) and all six are reported with a concrete failing input. This is the
+after an accepted file was replaced by a link) and all six are reported with a concrete failing input. **C12** —
+one refuted by Verus (`TumblingWindow::add_shared`), one caught by the windows stand-in, one first *undecided* (it
+introduced `saturating_sub`, which the C12 template did not declare, and went through `flush_columnar`, which the
+stand-in did not exercise): helper declared, stand-in extended, now refuted by the Verus obligation of
+`CountWindow::add_shared` with the stand-in's failing input attached. **C40** — all three caught at once (two Kani cells,
+one native map cell). **C20** — one caught at once, two first *missed* (a NaN with the sign bit set through my own serde
+adapter; payload fields named like the serialised keys): the native cells' value and field-name pools were widened.
+**C45** — two refuted at once by the `spec_step` cells, one first *missed* (an empty batch taken as the half-open probe
+inside `ResilientSink::send_batch`, which was declared not covered): a native stand-in for `ResilientSink` was added. This is the
 honest picture of the stand-ins: they catch what their enumeration happens to contain, and nothing else; only the
 proofs generalise. No seeded change was reported on
 the unchanged tree, and no check reports a violation on the unchanged tree.
